@@ -210,12 +210,22 @@ int process_tarball(sqfs_dir_iterator_t *it, sqfs_writer_t *sqfs)
 			if (link != NULL &&
 			    ((ent->flags & SQFS_DIR_ENTRY_FLAG_HARD_LINK) ||
 			     !no_symlink_retarget)) {
-				if (canonicalize_name(link) == 0 &&
-				    !strncmp(link, root_becomes, rootlen) &&
-				    link[rootlen] == '/') {
-					memmove(link, link + rootlen,
-						strlen(link + rootlen) + 1);
+				char *canon = strdup(link);
+
+				if (canon == NULL) {
+					perror(ent->name);
+					free(ent);
+					free(link);
+					return -1;
 				}
+
+				if (canonicalize_name(canon) == 0 &&
+				    !strncmp(canon, root_becomes, rootlen) &&
+				    canon[rootlen] == '/') {
+					strcpy(link, canon + rootlen);
+				}
+
+				free(canon);
 			}
 		} else if (ent->name[0] == '\0') {
 			is_root = true;
